@@ -153,6 +153,10 @@ func (s *seqRunner) apply(op string) OpResult {
 		case "load":
 			// a load of an absent (or expired) key that yields a value installs it: a creation
 			writes = !present && len(f) > 2 && f[2] == "val" && len(loads) > 0
+		case "refresh":
+			// an explicit refresh whose (re)load ran inside the call and yielded a value: an update of a present entry,
+			// a creation over an absent or expired one
+			writes = !s.deferred && s.cfg.Refresh != "" && len(f) > 2 && f[2] == "val" && len(loads) == 1 && loads[0].Err == ""
 		}
 		if writes {
 			want := map[string]string{"creating": "create", "writing": "write", "accessing": "access", "custom": "create"}[s.cfg.Expiry]
@@ -189,12 +193,15 @@ func (s *seqRunner) apply(op string) OpResult {
 			writes = present
 		case "load":
 			writes = !present && len(f) > 2 && f[2] == "val" && len(loads) > 0
+		case "refresh":
+			writes = !s.deferred && len(f) > 2 && f[2] == "val" && len(loads) == 1 && loads[0].Err == ""
 		}
 		if writes {
 			want := map[string]string{"creating": "rcreate", "writing": "rwrite"}[s.cfg.Refresh]
 			if present && s.cfg.Refresh == "creating" {
 				want = ""
 			}
+
 			got := ""
 			for _, h := range hooks {
 				if h.Key == k && (h.Hook == "rcreate" || h.Hook == "rwrite") {
